@@ -219,7 +219,9 @@ func canonicalBatch(content []byte) error {
 		if _, err := jTicker(in["type"]); err != nil {
 			return fmt.Errorf("tx %d input: %v", i, err)
 		}
-		hasT := tx["transfers"] != nil && !(tx["transfers"].kind == 'a' && len(tx["transfers"].elems) == 0) && tx["transfers"].kind != 'z'
+		// "exactly one of transfers or conversion": a key that is present counts, whatever its value
+		// (an empty or null transfers list next to a conversion is still both)
+		hasT := tx["transfers"] != nil
 		hasC := tx["conversion"] != nil
 		if hasT == hasC {
 			return fmt.Errorf("tx %d: exactly one of transfers / conversion required", i)
